@@ -12,7 +12,7 @@ REQUIRED = ["lower <= true mGH (exact oracle)", "true mGH <= upper (exact oracle
             "lower <= upper", "isomorphic graphs get lower bound 0", "reported distortion of every sampled map is its real distortion",
             "upper == 1/2 max over directions of the best sampled map", "lower <= 1/2 max distortion of independent maps"]
 RULE = ("pairs of connected graphs from paths, cycles, stars, spiders, caterpillars, random trees, lollipops, barbells, grids, complete, "
-        "complete bipartite and connected G(n,p), randomly relabelled: n<=8 (quick) / 9 (thorough) with the exact oracle, plus pairs of random trees with 8-10 vertices with the exact oracle (min "
+        "complete bipartite and connected G(n,p), randomly relabelled: n<=8 (quick) / 9 (thorough) with the exact oracle, plus pairs of random trees with 8-10 vertices and pairs (graph, degree-preserving 2-switch of it) with 5-8 vertices, all with the exact oracle (min "
         "distortion by backtracking, both directions), n<=40 with witness clauses, 50-140 vertex long-diameter graphs (paths, cycles, caterpillars, trees, lollipops; diameters 40-139, half of them against a relabelled copy of themselves) and 128-160 vertex pairs across the int8/int16 boundary: sparse vs sparse (witness clauses) and dense, twin-rich graphs (complete, complete bipartite, star, lollipop, G(n,.5)) vs graphs of <=6 vertices, for which the exact oracle applies after an exact twin reduction. "
         "Every pair is run under several NumPy RNG states and under substituted draws (identity / reversed / rotated permutations; "
         "first / last / constant choice) and with mapping_sample_size_order in {[.5,1],[0,0],[1,1],[0,3],[2,0],[-1,-1]}. non-trivial = "
@@ -152,7 +152,9 @@ def run_case(ctx, k, rng):
     _t0 = _time.monotonic()
     r = rng.random()
     exact_n = 8 if ctx.tier == "quick" else 9
-    if r < 0.33:
+    if r < 0.08:
+        mode = "switch"         # a graph against a degree-preserving edge switch of itself: equal invariants, usually not isomorphic
+    elif r < 0.33:
         mode = "exact"
     elif r < 0.73:
         mode = "trees"          # pairs of random trees with 8-10 vertices: long diameters, many peripheral vertices - the regime
@@ -169,6 +171,12 @@ def run_case(ctx, k, rng):
         mode = "big"
     if mode == "exact":
         A, fa = OM.random_connected(rng, exact_n); B, fb = OM.random_connected(rng, exact_n)
+    elif mode == "switch":
+        n = int(rng.integers(5, 9))
+        A = OM.gnp_connected(rng, n, float(rng.choice([0.45, 0.6, 0.75]))) if rng.random() < 0.7 else \
+            [OM.complete_bipartite(3, 3), OM.complete_bipartite(2, 3), OM.cycle(6), OM.grid(2, 3), OM.complete_bipartite(4, 4)][int(rng.integers(0, 5))]
+        B = OM.two_switch(rng, A, int(rng.integers(1, 3)))
+        fa, fb = "gnp/regular", "2-switch"
     elif mode == "trees":
         A, B = OM.random_tree(rng, int(rng.integers(8, 11))), OM.random_tree(rng, int(rng.integers(8, 11)))
         fa = fb = "tree"
@@ -240,7 +248,7 @@ def run_case(ctx, k, rng):
         ctx.mark_nontrivial(signature(DX), signature(DY), sample={"A": A.tolist() if len(A) <= 9 else "n=%d" % len(A),
                                                                   "B": B.tolist() if len(B) <= 9 else "n=%d" % len(B), "families": [fa, fb]})
     true2 = None
-    if mode in ("exact", "trees"):
+    if mode in ("exact", "trees", "switch"):
         try:
             true2 = OM.mgh_exact_doubled(DX, DY, timeout=20.0)
         except OM.OracleTimeout:
